@@ -22,6 +22,12 @@ func (in *Interp) spawn(fv FuncV, args []Value) *Thread {
 	}
 	in.pushFrame(th, fv.Fn, args, fv.Env, -1, false)
 	in.cur = saved
+	if in.raceCheck && saved != nil {
+		pvc := in.vcOf(saved)
+		th.vc = pvc.copy()
+		th.vc[th.id] = 1
+		pvc[saved.id]++
+	}
 	in.syncPoint(saved, "go")
 	return th
 }
@@ -88,6 +94,7 @@ func (in *Interp) mutexLock(th *Thread, p Ptr, what string) {
 	}
 	ls.writer = th
 	th.held++
+	in.hbAcquire(th, ls)
 	in.lockEvent(th, ls, "L")
 	in.syncPoint(th, "lock")
 }
@@ -99,6 +106,7 @@ func (in *Interp) mutexUnlock(th *Thread, p Ptr) {
 	}
 	ls.writer.held--
 	ls.writer = nil
+	in.hbRelease(th, ls)
 	in.lockEvent(th, ls, "U")
 	in.syncPoint(th, "unlock")
 }
@@ -112,6 +120,7 @@ func (in *Interp) mutexRLock(th *Thread, p Ptr) {
 	ls.readers[th]++
 	ls.nread++
 	th.held++
+	in.hbAcquire(th, ls)
 	in.lockEvent(th, ls, "RL")
 	in.syncPoint(th, "rlock")
 }
@@ -135,6 +144,7 @@ func (in *Interp) mutexRUnlock(th *Thread, p Ptr) {
 			}
 		}
 	}
+	in.hbRelease(th, ls)
 	in.lockEvent(th, ls, "RU")
 	in.syncPoint(th, "runlock")
 }
@@ -233,13 +243,16 @@ func (in *Interp) chanSend(th *Thread, c ChanV, v Value) {
 	}
 	if ch.Cap > 0 {
 		if ch.live() < ch.Cap {
-			ch.items = append(ch.items, &chanItem{v: copyVal(v)})
+			it := &chanItem{v: copyVal(v)}
+			in.hbRelease(th, it)
+			ch.items = append(ch.items, it)
 			in.syncPoint(th, "send")
 			return
 		}
 		panic(blockSignal{why: "send on full channel", cond: func() bool { return ch.live() < ch.Cap || ch.Closed }})
 	}
 	it := &chanItem{v: copyVal(v)}
+	in.hbRelease(th, it)
 	ch.items = append(ch.items, it)
 	th.pendingSend = it
 	panic(blockSignal{why: "send (unbuffered) waiting for receiver", cond: func() bool { return it.taken || ch.Closed }})
@@ -260,6 +273,7 @@ func (ch *ChanObj) take() (Value, bool) {
 		if !it.taken {
 			it.taken = true
 			ch.items = ch.items[i+1:]
+			ch.lastTaken = it
 			return it.v, true
 		}
 	}
@@ -274,6 +288,7 @@ func (in *Interp) chanRecv(th *Thread, c ChanV, commaOk bool, ct types.Type) (Va
 	}
 	ch := c.C
 	if v, ok := ch.take(); ok {
+		in.hbAcquire(th, ch.lastTaken)
 		in.syncPoint(th, "recv")
 		if commaOk {
 			return Tuple{v, in.ts.True}, true
@@ -281,6 +296,7 @@ func (in *Interp) chanRecv(th *Thread, c ChanV, commaOk bool, ct types.Type) (Va
 		return v, true
 	}
 	if ch.Closed {
+		in.hbAcquire(th, ch)
 		z := in.zero(elem)
 		if commaOk {
 			return Tuple{z, in.ts.False}, false
@@ -473,4 +489,122 @@ func (in *Interp) fireTimer() bool {
 	}
 	t.ch.items = append(t.ch.items, &chanItem{v: in.timeValue(in.now())})
 	return true
+}
+
+// ---------------------------------------------------------------------------
+// data-race detection (opt-in: vfOpt("racecheck",1)): happens-before with vector clocks.
+// Synchronisation edges: mutex release -> later acquire of the same mutex, go statement -> first step
+// of the new thread, thread end -> vfWaitAll, channel send -> receive, close -> receive, atomic
+// operation -> later atomic operation on the same slot. Two accesses to the same memory slot (or
+// map) by different threads, at least one a write, not ordered by these edges in the schedule being
+// explored, are a race (two sync/atomic operations never race with each other).
+
+type vclock map[int]int64
+
+func (v vclock) copy() vclock {
+	n := make(vclock, len(v))
+	for k, x := range v {
+		n[k] = x
+	}
+	return n
+}
+
+func (v vclock) join(o vclock) {
+	for k, x := range o {
+		if x > v[k] {
+			v[k] = x
+		}
+	}
+}
+
+func (in *Interp) vcOf(th *Thread) vclock {
+	if th.vc == nil {
+		th.vc = vclock{th.id: 1}
+	}
+	return th.vc
+}
+
+// release: publish th's knowledge into the synchronisation object's clock
+func (in *Interp) hbRelease(th *Thread, key interface{}) {
+	if !in.raceCheck || th == nil {
+		return
+	}
+	vc := in.vcOf(th)
+	o, ok := in.syncVC[key]
+	if !ok {
+		o = vclock{}
+		in.syncVC[key] = o
+	}
+	o.join(vc)
+	vc[th.id]++
+}
+
+// acquire: learn what was published through the synchronisation object
+func (in *Interp) hbAcquire(th *Thread, key interface{}) {
+	if !in.raceCheck || th == nil {
+		return
+	}
+	if o, ok := in.syncVC[key]; ok {
+		in.vcOf(th).join(o)
+	}
+}
+
+type slotKey struct {
+	agg *Agg
+	idx int
+	m   *MapObj
+}
+
+type accessRec struct {
+	tid    int
+	clock  int64
+	write  bool
+	atomic bool
+	fn     string
+}
+
+func (in *Interp) access(k slotKey, write bool) {
+	if !in.raceCheck || in.inPure {
+		return
+	}
+	th := in.cur
+	if th == nil || th.id < 0 {
+		return
+	}
+	vc := in.vcOf(th)
+	fn := ""
+	recs := in.accesses[k]
+	for _, o := range recs {
+		if o.tid == th.id {
+			continue
+		}
+		if !write && !o.write {
+			continue
+		}
+		if in.atomicAccess && o.atomic {
+			continue
+		}
+		if vc[o.tid] >= o.clock {
+			continue // ordered before this access
+		}
+		if th.top != nil {
+			fn = userFrame(th.top)
+		}
+		what := "memory slot"
+		if k.m != nil {
+			what = "map"
+		}
+		panic(pathEnd{Verdict{Kind: "RACE", Label: "unsynchronised access to a " + what + ": " + o.fn + " / " + fn, Func: fn}})
+	}
+	// one record per (thread, kind): the latest access subsumes the earlier ones of the same thread
+	for i := range recs {
+		if recs[i].tid == th.id && recs[i].write == write && recs[i].atomic == in.atomicAccess {
+			recs[i].clock = vc[th.id]
+			return
+		}
+	}
+	if th.top != nil {
+		fn = userFrame(th.top)
+	}
+	in.accesses[k] = append(recs, accessRec{tid: th.id, clock: vc[th.id], write: write, atomic: in.atomicAccess, fn: fn})
 }
